@@ -451,6 +451,54 @@ func c12Readers(args []string) int {
 			}
 		}
 	}
+	// a FormatReader that is asked again after it reported the end (or an error) must not release anything a second
+	// time: the real readers of all formats, reached through the CustomFileFormats extension point, get three more
+	// Read calls after the Transform has finished, with another owner acquiring nodes in between
+	{
+		rec := &ingRecorder{ids: map[int64]int{}}
+		for _, s := range append(miniSamples(), generatedSamples()...) {
+			if len(s.Input) > 20000 {
+				continue
+			}
+			sch, err, p := newSchema(s.Schema, recordingExtension(rec))
+			if err != nil || p != "" {
+				fmt.Println("error: schema rejected under the recording extension", s.Name, err, p)
+				return 3
+			}
+			rec.readers = nil
+			out := runTranscript(sch, strings.NewReader(string(s.Input)), RunOpts{MaxReads: 3000})
+			if out.Panic != "" || len(rec.readers) == 0 {
+				continue
+			}
+			rd := rec.readers[len(rec.readers)-1]
+			var other []*idr.Node
+			for k := 0; k < 3; k++ {
+				pv, hung := guarded(5*time.Second, func() {
+					n, _ := rd.Read()
+					if n != nil {
+						rd.Release(n)
+					}
+				})
+				if pv != "" || hung {
+					violation("C12", "panic-read-after-end", fmt.Sprintf("%s: Read after the end: panic=%q hung=%v", s.Name, pv, hung), M{"sample": s.Name})
+					break
+				}
+				root := idr.CreateNode(idr.ElementNode, "o")
+				idr.AddChild(root, idr.CreateNode(idr.TextNode, "t"))
+				other = append(other, root)
+				if ev, ok := dumpTree(root, pt, 50); ok {
+					ev["tr"] = len(events) + 1
+					ev["sample"] = s.Name + " (another owner's tree after a Read past the end)"
+					events = append(events, ev)
+					sum.Traces++
+				}
+			}
+			for _, o := range other {
+				idr.RemoveAndReleaseTree(o)
+			}
+			sum.eval(true, M{"after-end": s.Name})
+		}
+	}
 	// several owners alive at once: the idr stream readers driven directly, their Read / Release calls interleaved with
 	// each other and with a hand-built tree; after every call the tree of every node still held is audited
 	type owner struct {
